@@ -786,6 +786,16 @@ def graph_walks(repo):
     calls = set(re.findall(r"\b([A-Za-z_]\w*)\s*\(", b))
     known = {"if", "ENTITYget_mark", "ENTITYput_mark", "LISTdo", "ENTITYget_supertypes", "DICTlookup", "ENTITYget_name", "SCOPE_dfs", "LISTadd_last"}
     out.append(("SCOPE_dfs", bool(g and rec > g.end() and calls <= known and not re.search(r"ENTITY_MARK\s*(\+\+|=[^=])|\+\+\s*ENTITY_MARK", b))))
+    # the two cyclicity checks mark the successor before they descend into it
+    t = _strip_comments(_read(repo, "src/express/resolve.c"))
+    for fn, sig, var, rec in (("ENTITY_check_subsuper_cyclicity_", r"static\s+int\s+ENTITY_check_subsuper_cyclicity_\s*\([^)]*\)\s*\{", "sub", "ENTITY_check_subsuper_cyclicity"),
+                              ("TYPE_check_select_cyclicity", r"int\s+TYPE_check_select_cyclicity\s*\([^)]*\)\s*\{", "item", "TYPE_check_select_cyclicity")):
+        b = _body(t, sig, fn)
+        g = re.search(r"if\s*\(\s*" + var + r"->search_id\s*==\s*__SCOPE_search_id\s*\)\s*\{\s*continue\s*;\s*\}\s*" + var +
+                      r"->search_id\s*=\s*__SCOPE_search_id\s*;\s*if\s*\(\s*" + rec + r"\s*\(", b)
+        calls = set(re.findall(r"\b([A-Za-z_]\w*)\s*\(", b))
+        only = len(re.findall(r"\b" + rec + r"\s*\(", b)) == 1
+        out.append((fn, bool(g and only and not (calls & bumpers))))
     # TYPE_resolve_: defined types that refer to each other (TYPE a = b; TYPE b = a; / aggregates / selects)
     t = _strip_comments(_read(repo, "src/express/resolve.c"))
     b = _body(t, r"static\s+void\s+TYPE_resolve_\s*\([^)]*\)\s*\{", "TYPE_resolve_")
